@@ -72,6 +72,9 @@ fn client_param(ty: &syn::Type, generics: &[String]) -> (String, String) {
                         if it == "str" {
                             return ("Option<String>".into(), "$v.as_deref()".into());
                         }
+                        if let syn::Type::Slice(sl) = &*r.elem {
+                            return (format!("Option<Vec<{}>>", ts(&*sl.elem)), "$v.as_deref()".into());
+                        }
                         return (format!("Option<{}>", it), "$v.as_ref()".into());
                     }
                 }
